@@ -1195,6 +1195,22 @@ func runCase(id string, toks []string, bound time.Duration) (obs []string, flags
 		obs = append(obs, strings.ReplaceAll(e, " ", "_"))
 	}
 	flags["connected"], flags["blockedwrite"], flags["poisoned"], flags["returned"] = r.connected.Load(), everAbort, r.poisoned, returned
+	// a watchdog expiry outside the scenarios that are built to deadlock: the case is run a second time
+	// before it is reported (the machine is shared; a verdict must not depend on one scheduling hiccup)
+	if !r.poisoned {
+		hang := !returned
+		for _, c := range closers {
+			if atomic.LoadInt32(&c.ret) == 0 {
+				hang = true
+			}
+		}
+		for _, c := range calls {
+			if atomic.LoadInt32(&c.class) == clsHang {
+				hang = true
+			}
+		}
+		flags["hang"] = hang
+	}
 
 	// ---- cleanup: release everything that is still parked
 	r.hammerStop.Store(true)
@@ -1460,7 +1476,7 @@ func runClose(ctx *Ctx) error {
 	} else {
 		n := 240
 		if ctx.Tier != "quick" {
-			n = 4000
+			n = 1500
 		}
 		g := &genr{r: ctx.Rng}
 		for i := 0; i < n; i++ {
@@ -1473,7 +1489,10 @@ func runClose(ctx *Ctx) error {
 		flags map[string]bool
 	}
 	results := make([]result, len(jobs))
-	workers := 6
+	workers := 8
+	if ctx.Tier != "quick" {
+		workers = 12
+	}
 	var wg sync.WaitGroup
 	next := int32(-1)
 	var hung int32
@@ -1516,6 +1535,24 @@ func runClose(ctx *Ctx) error {
 		}()
 	}
 	wg.Wait()
+	// second chance for watchdog expiries, one case at a time (a quiet moment)
+	for i, j := range jobs {
+		if results[i].flags["hang"] {
+			ctx.Count("retried_after_watchdog")
+			id := fmt.Sprintf("r%d", j.idx)
+			func() {
+				defer func() {
+					if p := recover(); p != nil {
+						results[i] = result{[]string{"PANIC", Hex(fmt.Sprint(p))}, map[string]bool{}}
+					}
+				}()
+				pprof.Do(context.Background(), pprof.Labels("case", id), func(context.Context) {
+					obs, fl := runCase(id, j.toks, bound)
+					results[i] = result{obs, fl}
+				})
+			}()
+		}
+	}
 	for i, j := range jobs {
 		res := results[i]
 		ctx.Count("tag:" + j.tag)
